@@ -98,6 +98,65 @@ def run(ctx):
                + (f"; negative term {neg[0]!r}" if neg else ""), ss[0].fn.loc(ss[0].node))
 
 
+    rule_shortcut_guard(ctx)
+    from rules import _lints
+    R4 = "SLACK-SPLIT"
+    ctx.rule(R4, "the slack power of a bus is shared among the reference generators of that bus: the divisor is the number of "
+                 "exactly the rows the shares are assigned to (AC: pfsoln._split_p_for_gens_at_same_bus, DC: _run_dc_pf)")
+    n = _lints.split_divisor(ctx, R4, [ctx.repo.func("pandapower.pypower.pfsoln:_split_p_for_gens_at_same_bus"),
+                                       ctx.repo.func("pandapower.pf.run_dc_pf:_run_dc_pf")])
+    if n < 2:
+        ctx.fail("SLACK-SPLIT: the slack sharing statements were not found")
+
+
+def rule_shortcut_guard(ctx):
+    """pf_solution_single_slack sums bus demand, branch flows and FACTS terms only; every other injection of the nodal balance
+    (shunt conductance GS, shunt susceptance BS, voltage dependent demand, further generators, distributed slack) must keep
+    it from being selected"""
+    import ast
+    from ppsa.astutil import norm, names_in
+    R3 = "SHORTCUT-GUARD"
+    ctx.rule(R3, "the condition under which _get_numba_functions selects pf_solution_single_slack depends on ppci['bus'][:, GS], "
+                 "ppci['bus'][:, BS], options['voltage_depend_loads'], options['distributed_slack'] and the number of gen rows: "
+                 "each is a term of the power balance that the shortcut does not sum")
+    fi = ctx.repo.func("pandapower.pf.run_newton_raphson_pf:_get_numba_functions")
+    sel = None
+    for n in ast.walk(fi.node):
+        if isinstance(n, ast.IfExp) and isinstance(n.body, ast.Name) and n.body.id == "pf_solution_single_slack":
+            sel = n.test
+        if isinstance(n, ast.If) and any(isinstance(x, ast.Assign) and isinstance(x.value, ast.Name) and x.value.id == "pf_solution_single_slack"
+                                         for x in n.body):
+            sel = n.test
+    if sel is None:
+        ctx.fail("_get_numba_functions: selection of pf_solution_single_slack not found")
+    defs = {}
+    for n in ast.walk(fi.node):
+        if isinstance(n, ast.Assign) and len(n.targets) == 1 and isinstance(n.targets[0], ast.Name):
+            defs.setdefault(n.targets[0].id, []).append(n.value)
+    txt = norm(sel, 2000)
+    seen = set()
+    frontier = [sel]
+    for _ in range(3):
+        nxt = []
+        for e in frontier:
+            for nm in names_in(e):
+                if nm in defs and nm not in seen:
+                    seen.add(nm)
+                    nxt += defs[nm]
+        for e in nxt:
+            txt += "|" + norm(e, 2000)
+        frontier = nxt
+    txt = txt.replace('"', "'")
+    need = {"GS": "ppci['bus'][:,GS]", "BS": "ppci['bus'][:,BS]", "voltage_depend_loads": "options['voltage_depend_loads']",
+            "distributed_slack": "options['distributed_slack']", "gen rows": "ppci['gen'].shape[0]"}
+    for k, frag in need.items():
+        ok = frag in txt
+        ctx.ob(R3, f"pandapower.pf.run_newton_raphson_pf::_get_numba_functions::{k}", ok,
+               f"the selection of the single-slack shortcut depends on {k}" if ok else
+               f"pf_solution_single_slack can be selected although {k} contributes to the balance: its slack power = demand + losses "
+               "leaves that term out and the slack bus is unbalanced", fi.loc())
+
+
 def variants(repo):
     rb = "pandapower/results_branch.py"
     pn = "pandapower/pf/pfsoln_numba.py"
@@ -109,5 +168,9 @@ def variants(repo):
         V("impedance ac/dc swapped", rb, in_function("_get_impedance_results", lambda s: s.replace("if ac:", "if not ac:", 1)), "res_impedance"),
         V("dc line loss nonzero", rb, in_function("_get_line_results", replace_once("pl_mw = np.zeros_like(pf_mw)", "pl_mw = pf_mw + pt_mw")), "LOSS-DC-ZERO"),
         V("slack ignores to-side", pn, replace_once("p_loss = branch[:, [PF, PT]].sum()", "p_loss = branch[:, [PF]].sum()"), "SLACK-SUM"),
+        V("shortcut with conductance shunts", "pandapower/pf/run_newton_raphson_pf.py", replace_once('shunt_in_net = any(ppci["bus"][:, BS]) or any(ppci["bus"][:, GS])', 'shunt_in_net = any(ppci["bus"][:, BS])'), "SHORTCUT-GUARD"),
+        V("shortcut with zip loads", "pandapower/pf/run_newton_raphson_pf.py", replace_once('                                             and not options["voltage_depend_loads"] \\\n', ""), "SHORTCUT-GUARD"),
+        V("ac slack split by all gens at the bus", "pandapower/pypower/pfsoln.py", replace_once("gen[ext_grids, PG] = p_ext_grids / len(ext_grids)", "gen[ext_grids, PG] = p_ext_grids / len(gens_at_bus)"), "SLACK-SPLIT"),
+        V("dc slack split counts all gens", "pandapower/pf/run_dc_pf.py", replace_once("ext_grids_bus=bincount(refgenbus)", "ext_grids_bus=bincount(gen[:, GEN_BUS].astype(np.int64))"), "SLACK-SPLIT"),
         V("twin: sum order", rb, replace_once("pl_mw = phv_mw + pmv_mw + plv_mw", "pl_mw = plv_mw + (phv_mw + pmv_mw)"), None),
     ]
